@@ -393,8 +393,13 @@ def _closeboth_rule(chk, prog):
             side = alias.get(a0.name) if is_ref(a0) else (a0.field if a0.k == "mem" else None)
             if side in ("read_fiber", "write_fiber"):
                 calls.append((x, side))
-    if len(calls) < 2:
-        raise AnalysisBroken("janet_stream_close: the two close notifications were not recognised (%d)" % len(calls))
+    sides = set(side for _, side in calls)
+    for want in ("read_fiber", "write_fiber"):
+        if want not in sides:
+            chk.instance(rule)
+            chk.violation(rule, "ev.c", fn.name, "notify:%s:missing" % want, fn.loc,
+                          "janet_stream_close has no close notification addressed to the stream's %s of its own (found: %s): with a "
+                          "reader and a writer both parked, one of them is never told" % (want, sorted(sides) or "none"))
     for x, side in calls:
         chk.instance(rule)
         other = "write_fiber" if side == "read_fiber" else "read_fiber"
